@@ -255,6 +255,25 @@ func runC05(c *Ctx) {
 		return
 	}
 	r := c.R
+	// fixed scenario, every run: a task that answers more than once, another task issued while it runs (for 0-4 tasks already on
+	// record, so that the record grows across every small capacity), the first task's last answer, then that answer again
+	for pre := 0; pre < 5; pre++ {
+		w.line(c, "reset")
+		w.line(c, "world 0")
+		id := fmt.Sprintf("%08x", 0x4100+pre)
+		w.line(c, "agent "+id)
+		for k := 0; k < pre; k++ {
+			w.line(c, fmt.Sprintf("issue %s 11 %d", id, 900+k))
+		}
+		w.line(c, fmt.Sprintf("issue %s 21 5001", id))
+		w.line(c, fmt.Sprintf("cb %s %d 5001 0 %s", id, agent.COMMAND_OUTPUT, hx(body(fS("first part")))))
+		w.line(c, fmt.Sprintf("issue %s 11 5002", id))
+		w.line(c, fmt.Sprintf("cb %s %d 5001 0 %s", id, agent.COMMAND_OUTPUT, hx(body(fS("second part")))))
+		w.line(c, fmt.Sprintf("cb %s %d 5001 1 %s", id, agent.COMMAND_SLEEP, hx(body(fI(30), fI(5)))))
+		w.line(c, fmt.Sprintf("cb %s %d 5001 1 %s", id, agent.COMMAND_SLEEP, hx(body(fI(99), fI(9)))))
+		w.line(c, fmt.Sprintf("cb %s %d 5001 0 %s", id, agent.COMMAND_OUTPUT, hx(body(fS("after the end")))))
+		c.Count("prelude.replay-after-issue")
+	}
 	for c.Lines < c.N {
 		w.line(c, "reset")
 		logs := "0"
